@@ -43,3 +43,60 @@ PROPS["C14"] = {
     "assumptions": ["std::path::Path::components / PathBuf::push behave as Base/PathLex.v (validated, not verified)",
                     "paths are valid UTF-8"],
 }
+
+
+# ---------------------------------------------------------------------------------------------
+def clean_abs_paths(names, maxdepth):
+    import itertools
+    out = []
+    for d in range(maxdepth + 1):
+        for t in itertools.product(names, repeat=d):
+            out.append("/" + "/".join(t))
+    return out
+
+
+def c16_streams(tier, rng, ctx):
+    names = ["a", "b", "é"] if tier == "quick" else ["a", "b", "é", "a.b"]
+    depth = 4 if tier == "quick" else 5
+    paths = clean_abs_paths(names, depth)
+    if tier == "thorough":
+        paths = paths[:400] + rng.sample(paths, 600)
+    pairs = [(p, b) for p in paths for b in paths]
+    # random deeper pairs with multi-byte names
+    pool = ["a", "b", "c", "語", "😀x", "é", "..a", "a..", ".x", "x y"]
+    for _ in range(3000 if tier == "quick" else 30000):
+        pre = [rng.choice(pool) for _ in range(rng.randint(0, 6))]
+        p = pre + [rng.choice(pool) for _ in range(rng.randint(0, 5))]
+        b = pre + [rng.choice(pool) for _ in range(rng.randint(0, 5))]
+        pairs.append(("/" + "/".join(p), "/" + "/".join(b)))
+    impl = [line("relative", p, b) for p, b in pairs]
+    # arguments outside the theorem's hypothesis (unclean / relative) keep the mirror honest
+    odd = []
+    for _ in range(5000 if tier == "quick" else 50000):
+        odd.append(line("relative", random_string(rng, 10, alphabet=["/", ".", "a", "b", "é"]),
+                        random_string(rng, 10, alphabet=["/", ".", "a", "b", "é"])))
+
+    def post(l, out):
+        f = l.split("\t")
+        r = out[2:] if out.startswith("S:") else "00"
+        return "\t".join(["relative_check", f[1], f[2], r])
+
+    def nontriv(l, out):
+        f = l.split("\t")
+        return f[1] != f[2]
+    return [
+        Stream("relative-mirror", "mirror", impl + odd, nontrivial=nontriv, exhaustive=True,
+               rule="all ordered pairs of clean absolute paths (<= %d components over %d names) + random deeper pairs + unclean arguments" % (depth, len(names))),
+        Stream("relative-spec", "spec", impl, [line("relative_spec", p, b) for p, b in pairs], nontrivial=nontriv,
+               rule="sys::relative vs render(relative_spec) on clean absolute pairs"),
+        Stream("relative-check", "check", impl, post=post, nontrivial=nontriv,
+               rule="the property's own checker (relative, '..'* then normals, count, clean(join(base, r)) == path) applied to the implementation's result"),
+    ]
+
+
+PROPS["C16"] = {
+    "streams": c16_streams,
+    "rule": "all ordered pairs of clean absolute paths of the bounded namespace plus random deep pairs; non-trivial = path != base; distinct = distinct (path, base)",
+    "trusted": ["Base/PathLex.v model of std::path"],
+    "assumptions": ["std::path behaves as Base/PathLex.v (validated by the pathlex streams of C14/C15)", "paths are valid UTF-8"],
+}
